@@ -5,6 +5,8 @@ import json, os, re, shutil, subprocess, sys
 from concurrent.futures import ThreadPoolExecutor
 V = os.path.dirname(os.path.dirname(os.path.abspath(__file__)))
 src = sys.argv[1]
+SUFFIX = os.environ.get("SEED_SUFFIX", "")
+ONLY = set(os.environ.get("SEED_ONLY", "").split()) if os.environ.get("SEED_ONLY") else None
 ver = {}
 for log in sys.argv[2:]:
     for line in open(log):
@@ -12,6 +14,8 @@ for log in sys.argv[2:]:
         if m:
             ver[m.group(1)] = m.group(2)
 EXTRA = {"C11/m3": ["C01"], "C03/m2": ["C17"], "C03/m3": ["C17"], "C10/m1": ["C02"], "C04/m1": ["C17"], "C01/m2": ["C02"]}
+if SUFFIX:
+    EXTRA = {"C05/m2": ["C16"], "C05/m3": ["C16"], "C07/m3": ["C18"], "C03/m2": ["C17"], "C03/m3": ["C17"], "C04/m1": ["C17"]}
 
 def one(item):
     prop, m = item
@@ -20,7 +24,7 @@ def one(item):
     ok = "applies=yes" in v and "demo_clean_rc=0" in v and "demo_mutant_rc=0" not in v and "464 pass, 0 missing" in v
     if not ok:
         return (prop, m, "NOT-VERIFIED " + v)
-    sid = "%s-%s" % (prop, m)
+    sid = "%s-%s%s" % (prop, SUFFIX, m)
     out = os.path.join(V, "seeded", sid)
     os.makedirs(out, exist_ok=True)
     shutil.copy(os.path.join(d, "patch.diff"), os.path.join(out, "patch.diff"))
@@ -35,7 +39,7 @@ def one(item):
         if mm:
             keys = re.findall(r"#\s*([^:\s][^ ]*?):\s", mm.group(3))
             det[mm.group(1)] = {"rc": int(mm.group(2)), "first_report": mm.group(3)[:300]}
-    new = {"id": sid, "property": prop, "origin": "independent sub-agent (given only the property text and a scratch worktree)",
+    new = {"id": sid, "property": prop, "origin": "independent sub-agent (given only the property text and a scratch worktree)" + (", second round (told which mechanisms round one had used)" if SUFFIX else ""),
            "summary": meta.get("summary"), "needs_to_manifest": meta.get("needs"), "files": meta.get("files"),
            "verified_by_me": {"how": "tools/verify_seed.sh: scratch worktree of /repo HEAD, git apply, demo on clean and patched tree, pinned baseline with the patch",
                               "result": v},
@@ -47,7 +51,7 @@ def one(item):
 
 items = []
 for prop in sorted(os.listdir(src)):
-    if re.match(r"C\d+$", prop):
+    if re.match(r"C\d+$", prop) and (ONLY is None or prop in ONLY):
         for m in ("m1", "m2", "m3"):
             if os.path.exists(os.path.join(src, prop, m, "patch.diff")):
                 items.append((prop, m))
